@@ -103,5 +103,3 @@ class Storage:
             for index, value in reversed(list(enumerate(self.items[key]))):
                 if value.expired:
                     self.items[key].pop(index)
-                else:
-                    break
